@@ -181,20 +181,29 @@ fn extracted_fun_src(
     body_end: usize,
     params: &[(SymbolName, Option<Type>)],
 ) -> String {
+    // If we inferred a type that didn't match the surrounding
+    // context, the inferred type is still the best hint we have.
+    let return_ty = match return_ty {
+        Some(Type::Error {
+            inferred_type: Some(ty),
+            ..
+        }) => Some(ty.as_ref()),
+        _ => return_ty,
+    };
+
+    // The extracted function has no type parameters, and types such
+    // as `Any` or `List<Any>` can't be written in source code. Leave
+    // out any hint that wouldn't be valid.
     let return_signature = match return_ty {
-        Some(Type::Any) | None => "".to_owned(),
-        Some(Type::Error { inferred_type, .. }) => match inferred_type {
-            Some(ty) => format!(": {ty}"),
-            None => "".to_owned(),
-        },
-        Some(ty) => format!(": {ty}"),
+        Some(ty) if ty.is_writable_hint(&[]) => format!(": {ty}"),
+        _ => "".to_owned(),
     };
 
     let params_signature = params
         .iter()
         .map(|(param, ty)| match ty {
-            Some(ty) => format!("{}: {}", param.text, ty),
-            None => param.text.to_owned(),
+            Some(ty) if ty.is_writable_hint(&[]) => format!("{}: {}", param.text, ty),
+            _ => param.text.to_owned(),
         })
         .collect::<Vec<_>>()
         .join(", ");
